@@ -34,6 +34,7 @@ EXTENDS Integers, Sequences, FiniteSets, SequencesExt, TLC
 
 CONSTANTS Keys,        \* object keys of an unversioned bucket (one row each)
           Uploads,     \* pending multipart upload slots
+          NParts,      \* part numbers of a multipart upload / longest manifest
           Contents,    \* part contents (symbols; the harness owns the bytes)
           Stores,      \* configured part stores
           TxFree,      \* stores that read and delete without a transaction (filesystem)
@@ -47,10 +48,10 @@ CONSTANTS Keys,        \* object keys of an unversioned bucket (one row each)
           Deviations   \* deviation tags the code is known to have ("D-..."), or hypothetical
                        \* breakages ("H-...") used only to show that the properties are not vacuous
 
-PartNos == 1..2
+PartNos == 1..NParts
 Ids     == 1..MaxId
 NoInfo  == [c |-> "", st |-> ""]
-NoUpl   == [act |-> FALSE, key |-> "", st |-> "", parts |-> <<0, 0>>]
+NoUpl   == [act |-> FALSE, key |-> "", st |-> "", parts |-> [n \in 1..NParts |-> 0]]
 GcIdle  == [pc |-> "idle", cut |-> {}, obs |-> {}, dirty |-> {}, todo |-> {}, st |-> "",
             cand |-> {}, ext |-> {}, xid |-> 0, trk |-> {}]
 NoSlow  == [act |-> FALSE, k |-> "", c |-> "", s |-> "", id |-> 0]
@@ -242,7 +243,7 @@ TransitionEff(S, k, s) ==
           IN Commit(S, W3, [S.obj EXCEPT ![k] = a.parts], S.upl, "ok")
 
 CreateUploadEff(S, u, k, s) ==
-  Commit(S, Begin(S), S.obj, [S.upl EXCEPT ![u] = [act |-> TRUE, key |-> k, st |-> s, parts |-> <<0, 0>>]], "ok")
+  Commit(S, Begin(S), S.obj, [S.upl EXCEPT ![u] = [act |-> TRUE, key |-> k, st |-> s, parts |-> [n \in 1..NParts |-> 0]]], "ok")
 
 OldAt(S, u, n) == IF S.upl[u].parts[n] = 0 THEN <<>> ELSE <<S.upl[u].parts[n]>>
 
@@ -274,9 +275,11 @@ UploadPartCopyEff(S, u, n, src, j) ==
                 W2 == IF d.pre THEN W1 ELSE Register(W1, <<d.id>>)
             IN Commit(S, W2, S.obj, [S.upl EXCEPT ![u].parts[n] = d.id], "ok")
 
+\* CompleteMultipartUpload demands sequence numbers 1..n without a gap, n >= 1
+Contiguous(parts) == parts[1] # 0 /\ \A n \in PartNos : parts[n] # 0 => \A m \in 1..n : parts[m] # 0
 CompleteEff(S, u) ==
   IF ~S.upl[u].act THEN Fail(S, "NoSuchKey") ELSE
-  IF S.upl[u].parts[1] = 0 THEN Fail(S, "InvalidUploadSequence") ELSE
+  IF ~Contiguous(S.upl[u].parts) THEN Fail(S, "InvalidUploadSequence") ELSE
   LET k  == S.upl[u].key
       W1 == RemoveRefs(Begin(S), S.obj[k])
   IN Commit(S, W1, [S.obj EXCEPT ![k] = UplSeq(S, u)], [S.upl EXCEPT ![u] = NoUpl], "ok")
@@ -293,6 +296,12 @@ OrphanEff(S, s, c) ==
   LET W == Mint(Begin(S), s, c) IN
   [S EXCEPT !.nid = W.nid, !.info = W.info, !.phys[s] = @ \cup {S.nid},
             !.res = "ok", !.nops = @ + 1, !.faulted = TRUE]
+
+\* many orphans at once (same fault, one step): a store full of aged leftovers
+OrphanManyEff(S, s, c, n) ==
+  LET new == S.nid..(S.nid + n - 1) IN
+  [S EXCEPT !.nid = @ + n, !.info = [i \in Ids |-> IF i \in new THEN [c |-> c, st |-> s] ELSE S.info[i]],
+            !.phys[s] = @ \cup new, !.res = "ok", !.nops = @ + 1, !.faulted = TRUE]
 
 FirstPart(S, k) == S.obj[k][1]
 RegDropEff(S, k) ==
@@ -453,6 +462,7 @@ Eff(S, a) ==
     [] a.op = "Complete"       -> CompleteEff(S, a.u)
     [] a.op = "Abort"          -> AbortEff(S, a.u)
     [] a.op = "Orphan"         -> OrphanEff(S, a.s, a.c)
+    [] a.op = "OrphanMany"     -> OrphanManyEff(S, a.s, a.c, a.n)
     [] a.op = "RegDrop"        -> RegDropEff(S, a.k)
     [] a.op = "RegOver"        -> RegOverEff(S, a.k)
     [] a.op = "Stray"          -> StrayEff(S, a.s, a.c)
@@ -465,7 +475,7 @@ Eff(S, a) ==
     [] a.op = "Quiesce"        -> QuiesceEff(S)
 
 \* ------------------------------------------------ enabled calls of a state
-Room(S)   == S.nid + 2 <= MaxId + 1        \* an operation mints at most two ids
+Room(S)   == S.nid + NParts <= MaxId + 1   \* an operation mints at most one id per part
 Active(S) == ~S.quiet /\ S.nops < MaxOps /\ ~S.slow.act   \* an open slow put holds the writer lock
 
 PutCalls(S)    == IF Active(S) /\ Room(S) THEN {Call("Put", k, c, s, "", 0, "", 0) : k \in Keys, c \in Contents, s \in Stores} ELSE {}
@@ -483,11 +493,11 @@ UpPartCalls(S) == IF Active(S) /\ Room(S)
                   THEN {Call("UploadPart", "", c, "", u, n, "", 0) : c \in Contents, n \in PartNos, u \in {x \in Uploads : S.upl[x].act}} ELSE {}
 UpCopyCalls(S) == IF Active(S) /\ Room(S)
                   THEN {a \in {Call("UploadPartCopy", "", "", "", u, n, src, j) :
-                                 n \in PartNos, j \in 0..2, u \in {x \in Uploads : S.upl[x].act},
+                                 n \in PartNos, j \in 0..NParts, u \in {x \in Uploads : S.upl[x].act},
                                  src \in {x \in Keys : S.obj[x] # <<>>}} : Covered(S, a.src, a.j) # 0}
                   ELSE {}
 CompleteCalls(S) == IF Active(S)
-                    THEN {Call("Complete", "", "", "", u, 0, "", 0) : u \in {x \in Uploads : S.upl[x].act /\ S.upl[x].parts[1] # 0}} ELSE {}
+                    THEN {Call("Complete", "", "", "", u, 0, "", 0) : u \in {x \in Uploads : S.upl[x].act /\ Contiguous(S.upl[x].parts)}} ELSE {}
 AbortCalls(S)  == IF Active(S) THEN {Call("Abort", "", "", "", u, 0, "", 0) : u \in {x \in Uploads : S.upl[x].act}} ELSE {}
 OrphanCalls(S) == IF Active(S) /\ Room(S) /\ "orphan" \in Faults
                   THEN {Call("Orphan", "", c, s, "", 0, "", 0) : c \in Contents, s \in Stores} ELSE {}
@@ -541,7 +551,11 @@ RunProg(T, prog) == IF prog = <<>> THEN T ELSE RunProg(Eff(T, Head(prog)), Tail(
 TwoPartProg == <<Call("CreateUpload", "k1", "", "default", "u1", 0, "", 0), Call("UploadPart", "", "a", "", "u1", 1, "", 0),
                  Call("UploadPart", "", "b", "", "u1", 2, "", 0), Call("Complete", "", "", "", "u1", 0, "", 0),
                  Call("Tick", "", "", "", "", 0, "", 0)>>
-InitState == IF Preload = "twopart" THEN [RunProg(S0, TwoPartProg) EXCEPT !.nops = 0, !.res = ""] ELSE S0
+ThreePartProg == <<Call("CreateUpload", "k1", "", "default", "u1", 0, "", 0), Call("UploadPart", "", "a", "", "u1", 1, "", 0),
+                   Call("UploadPart", "", "b", "", "u1", 2, "", 0), Call("UploadPart", "", "c", "", "u1", 3, "", 0),
+                   Call("Complete", "", "", "", "u1", 0, "", 0), Call("Tick", "", "", "", "", 0, "", 0)>>
+InitState == IF Preload = "twopart" THEN [RunProg(S0, TwoPartProg) EXCEPT !.nops = 0, !.res = ""]
+             ELSE IF Preload = "threepart" THEN [RunProg(S0, ThreePartProg) EXCEPT !.nops = 0, !.res = ""] ELSE S0
 Init == S = InitState
 Next == APut \/ ADelete \/ ACopy \/ ATransition \/ ACreate \/ AUploadPart \/ AUploadCopy \/ AComplete
         \/ AAbort \/ AFault \/ ATick \/ AGc \/ AReader \/ AQuiesce
